@@ -52,7 +52,9 @@ void Curve::append_cubic(const Vec2 p0, const Vec2 p1, const Vec2 p2, const Vec2
             if (curvature < GDSTK_PARALLEL_EPS) {
                 dt = 1.0;
             } else {
-                double angle = 2 * acos(1 - curvature * tolerance);
+                // acos is undefined when the tolerance exceeds the curvature diameter
+                const double c = 1 - curvature * tolerance;
+                double angle = c < -1 ? 2 * M_PI : 2 * acos(c);
                 dt = angle / (curvature * len_dc);
             }
         }
@@ -103,7 +105,9 @@ void Curve::append_quad(const Vec2 p0, const Vec2 p1, const Vec2 p2) {
             if (curvature < GDSTK_PARALLEL_EPS) {
                 dt = 1.0;
             } else {
-                double angle = 2 * acos(1 - curvature * tolerance);
+                // acos is undefined when the tolerance exceeds the curvature diameter
+                const double c = 1 - curvature * tolerance;
+                double angle = c < -1 ? 2 * M_PI : 2 * acos(c);
                 dt = angle / (curvature * len_dc);
             }
         }
@@ -168,7 +172,9 @@ void Curve::append_bezier(const Array<Vec2> ctrl) {
             if (curvature < GDSTK_PARALLEL_EPS) {
                 dt = 1.0;
             } else {
-                double angle = 2 * acos(1 - curvature * tolerance);
+                // acos is undefined when the tolerance exceeds the curvature diameter
+                const double c = 1 - curvature * tolerance;
+                double angle = c < -1 ? 2 * M_PI : 2 * acos(c);
                 dt = angle / (curvature * len_dc);
             }
         }
